@@ -392,3 +392,7 @@ Example regenesis_example :
   regenesis 0 2 3 3 2 d_example = Some (json_part d_example) /\
   map (@length _) (chunks 2 (t_state d_example)) = [2; 2; 1]%nat.
 Proof. vm_compute. repeat split. Qed.
+
+Lemma import_independent_of_grouping_all : forall limit strict gs gs' t,
+  concat gs = concat gs' -> handle_groups limit strict gs t = handle_groups limit strict gs' t.
+Proof. intros. rewrite !handle_groups_concat. congruence. Qed.
